@@ -173,11 +173,12 @@ func VP_C05_basic_concurrent() {
 	}
 	w1, w2 := vpNewRW(), vpNewRW()
 	done := make(chan bool, 1)
+	mw := h.BasicAuth(next) // one middleware value serves every request, as the router holds it
 	go func() {
-		h.BasicAuth(next)(w2, mk("administrator", "guess", second))
+		mw(w2, mk("administrator", "guess", second))
 		done <- true
 	}()
-	h.BasicAuth(next)(w1, mk("mallory", "m-secret", "conn-1"))
+	mw(w1, mk("mallory", "m-secret", "conn-1"))
 	<-done
 	vpReach("both-answered")
 	vpObserve("status1", uint64(w1.status))
